@@ -35,6 +35,12 @@ class P:
         srcs = [g.program(rnd.choice([1, 2, 2, 3])) for _ in range(n)]
         srcs += [";", "a;b", "a && b", "a |\nb", "cat <<E\nx\nE\n", "$(a)", "`a`", "${x:-y}", "a\\\nb", "# c\na", "a;;", "a>b", "a>&2", "((1))", "$((1))",
                  "'a'", '"a"', "a <<-E\n\tE\n", "if a; then b; fi", "a&&", "!a", "{ a; }", "(a)"]
+        # here-documents inside substitutions, inside alias-free compound commands and at line breaks; more text after the delimiter word
+        # on the operator's line (the fault then falls between the announcement and the body)
+        srcs += G.heredoc_corpus()
+        for inner in ("cat <<E >f\nb\nE\n", "cat <<E | tr a b\nb\nE\n", "a <<E <<F\n1\nE\n2\nF\n", "cat <<E ;\nb\nE\n", "cat <<-E && c\n\tb\n\tE\n", "cat <<'E' \n$x\nE\n"):
+            srcs += ["echo $(" + inner + ")\n", "x=`" + inner + "` y\n", "echo \"$(" + inner + ")\" z\n", "{ " + inner + "}\n", "echo $(( $(" + inner + ") + 1 ))\n",
+                     "echo ${x:-$(" + inner + ")}\n", "a | " + inner, "if " + inner + "then :; fi\n"]
         srcs += list(G.strings_upto(G.ALPHA1, 2 if tier == "quick" else 3))
         cases = []
         for s in srcs:
